@@ -17,6 +17,11 @@ CLASSES = ("tiny", "itembin", "forcedrot", "dtype", "general", "shipped",
 
 
 def _name(rng) -> str:
+    # half of the generated instances share one of four names: different
+    # instances with the same name in one process are ordinary (users name
+    # their instances), and anything cached per name must still be right
+    if rng.integers(2):
+        return "v" + str(int(rng.integers(4)))
     return "v" + format(int(rng.integers(0, 1 << 30)), "x")
 
 
